@@ -60,7 +60,7 @@ func newEngine(prog *ssa.Program, pkgs []*packages.Package) *Engine {
 		tconsts: map[string]string{}, tconstTypes: map[string]types.Type{}, heapSorts: map[string]string{},
 		abstracted: map[string]int{}, havocCalls: map[string]int{}, inlined: map[string]int{}, extUsed: map[string]int{},
 		maxPaths: 200000, safetyOn: true, c10units: map[string]bool{}, lockLess: map[string]map[string]bool{},
-		modCache: map[*ssa.BasicBlock]*modSet{}, pdomCache: map[*ssa.Function]map[*ssa.BasicBlock]*ssa.BasicBlock{}, neverClosedSends: map[string]int{}, fnModCache: map[*ssa.Function]*modSet{}}
+		modCache: map[*ssa.BasicBlock]*modSet{}, pdomCache: map[*ssa.Function]map[*ssa.BasicBlock]*ssa.BasicBlock{}, neverClosedSends: map[string]int{}, fnModCache: map[*ssa.Function]*modSet{}, ifaceImplCache: map[string]bool{}}
 	for f := range ssautil.AllFunctions(prog) {
 		if f.Pkg != nil && strings.HasPrefix(f.Pkg.Pkg.Path(), modPath) || strings.Contains(f.String(), modPath) {
 			e.fns[shortName(f.String())] = f
